@@ -715,8 +715,9 @@ func runVariant(input []byte, variant int, verbose, enumHuge bool) *obs {
 	conn := newFakeConn()
 	lastConn.Store(conn)
 	opts := &imapclient.Options{}
+	// unilateral FETCH data: item by item (Next + literal Read) under cmdsA / unsol / greet, Collect under cmdsB / idle
 	hstyle := styleManual
-	if variant == vCmdsB || variant == vUnsol {
+	if variant == vCmdsB || variant == vIdle {
 		hstyle = styleCollect
 	}
 	if variant != vBare {
